@@ -988,6 +988,15 @@ func (c *fctx) call(x *ast.CallExpr) string {
 	if fn == nil {
 		fail("call of non-function at %s", c.g.w.fset.Position(x.Pos()))
 	}
+	// s2.roundingEpsilon(t any) is a type switch on its argument (not in the translated
+	// subset). With a float64 argument it is epsilonForDigits(53) = 2^-53; the value is tied
+	// to the Go code by correspondence (hook VerifRoundingEpsilon, observer C16).
+	if fn.Pkg() != nil && strings.HasSuffix(fn.Pkg().Path(), "/s2") && fn.Name() == "roundingEpsilon" &&
+		len(x.Args) == 1 && isFloat(c.typeOf(x.Args[0])) {
+		if b, ok := c.typeOf(x.Args[0]).Underlying().(*types.Basic); ok && b.Kind() == types.Float64 {
+			return floatLit(math.Ldexp(1, -53))
+		}
+	}
 	sig := fn.Type().(*types.Signature)
 	args := []string{}
 	if recv != "" {
